@@ -153,10 +153,25 @@ def run(repo):
             contrib = [n.value for n in walk_no_nested(rv.node)
                        if (isinstance(n, ast.Assign) and any(isinstance(t, ast.Name) and t.id == vt.id for t in n.targets))
                        or (isinstance(n, ast.AugAssign) and isinstance(n.target, ast.Name) and n.target.id == vt.id)]
+        def closure(v, depth=0, seen=None):
+            """v together with the definitions of the locals it reads (any number of definitions each)"""
+            seen = seen if seen is not None else set()
+            out = [v]
+            if depth > 4:
+                return out
+            for x in ast.walk(v):
+                if isinstance(x, ast.Name) and x.id not in seen:
+                    seen.add(x.id)
+                    for n in walk_no_nested(rv.node):
+                        if isinstance(n, ast.Assign) and any(isinstance(t, ast.Name) and t.id == x.id for t in n.targets):
+                            out += closure(n.value, depth + 1, seen)
+                        elif isinstance(n, ast.AugAssign) and isinstance(n.target, ast.Name) and n.target.id == x.id:
+                            out += closure(n.value, depth + 1, seen)
+            return out
         for v in contrib:
             if isinstance(v, ast.Constant) and v.value == '':
                 continue
-            if any(isinstance(x, ast.Attribute) and x.attr == 'vtype' for x in ast.walk(v)):
+            if any(isinstance(x, ast.Attribute) and x.attr == 'vtype' for c_ in closure(v) for x in ast.walk(c_)):
                 continue
             calls_ = [x for x in ast.walk(v) if isinstance(x, ast.Call) and
                       ntext(x.func) not in ('len', 'str', "''.join", 'list', 'tuple')]
